@@ -221,10 +221,10 @@ fn main() {
     for _ in 0..repeat {
         for (entry, cfg, cap, r) in &cases {
             let src = &data[r.clone()];
+            if scratch.len() < src.len() + 8192 + 128 {
+                scratch.resize(src.len() * 2 + 8192 + 128, 0);
+            }
             for a in ALIGNS {
-                if scratch.len() < src.len() + 128 {
-                    scratch.resize(src.len() * 2 + 128, 0);
-                }
                 // start at a 64-aligned address + a
                 let base = scratch.as_ptr() as usize;
                 let off = ((base + 63) & !63) - base + a;
@@ -233,6 +233,22 @@ fn main() {
                 if repeat == 1 {
                     out.write_all(&d.to_le_bytes()).unwrap();
                 }
+            }
+            if repeat == 1 {
+                // fourth placement: the buffer straddles a 4 KiB page boundary, which falls k
+                // bytes after its start (k from the content, so a single-case replay places it
+                // the same way)
+                let base = scratch.as_ptr() as usize;
+                let page = (base + 4096 + 4095) & !4095;
+                let mut hk: u64 = 0xcbf29ce484222325;
+                for &b in src.iter().take(64) {
+                    hk = (hk ^ b as u64).wrapping_mul(0x100000001b3);
+                }
+                let k = (hk % (src.len().min(4095) as u64 + 1)) as usize;
+                let off = page - k - base;
+                scratch[off..off + src.len()].copy_from_slice(src);
+                let d = digest(*entry, *cfg, *cap, &scratch[off..off + src.len()]);
+                out.write_all(&d.to_le_bytes()).unwrap();
             }
         }
     }
